@@ -119,3 +119,9 @@ func TestVerifC19_sumvec_invalid(t *testing.T) {
 	}
 	c19Sys().UnitInvalid(r, t, plan)
 }
+
+func TestVerifC19_sumvec_codec(t *testing.T) {
+	r := verifmc.Start(t, "C19", "sumvec_codec")
+	defer r.Finish()
+	c19Sys().UnitCodec(r, t, []prio.Inst{c19SV(3, 1, 2), c19SV(2, 2, 3), c19SV(2, 8, 5)}, []int{2, 3})
+}
